@@ -30,7 +30,13 @@ fn junk_str(rng: &mut Rng, sc: &Sc) -> String {
         4 => addr20("cosmos", "stranger"),
         5 => sc.users[0][..sc.users[0].len() - 1].to_string(),
         6 => format!("{}1", sc.cfg.prefix),
-        7 => "1".into(),
+        7 => {
+            // checksum-valid bech32 whose 5-bit payload does not regroup into whole bytes (one group, seven
+            // groups with non-zero padding bits, ...), under either chain's prefix
+            let n = *rng.pick(&[0usize, 1, 2, 7, 9, 33]);
+            let data: Vec<u8> = (0..n).map(|_| (rng.below(32) as u8) | 1).collect();
+            crate::prim::bech32_encode_5bit(if rng.chance(1, 2) { &sc.cfg.prefix } else { &sc.cfg.native_prefix }, &data)
+        }
         8 => "\u{00e9}\u{4e2d}\u{1F600}".into(),
         9 => addr32(&sc.cfg.native_prefix, "n32"),
         10 => sc.native_users[0].clone(),
@@ -250,7 +256,7 @@ pub fn next(rng: &mut Rng, sc: &Sc, o: &Obs) -> Vec<Op> {
             let ch = if rng.chance(1, 2) { o.channel() } else { format!("channel-{}", rng.below(3)) };
             let seq = if rng.chance(1, 2) && !o.queue.is_empty() { rng.pick(&o.queue).seq } else { rng.next() >> rng.below(64) };
             let m = if rng.chance(1, 2) {
-                json!({"ibc_lifecycle_complete": {"ibc_ack": {"channel": ch, "sequence": seq, "ack": junk_str(rng, sc), "success": rng.chance(1, 2)}}})
+                json!({"ibc_lifecycle_complete": {"ibc_ack": {"channel": ch, "sequence": seq, "ack": if rng.chance(1, 3) { long_ack(rng) } else { junk_str(rng, sc) }, "success": rng.chance(1, 2)}}})
             } else {
                 json!({"ibc_lifecycle_complete": {"ibc_timeout": {"channel": ch, "sequence": seq}}})
             };
@@ -346,4 +352,18 @@ pub fn weird_denom(rng: &mut Rng) -> String {
         d.push('A');
     }
     d
+}
+
+
+/// acknowledgement texts of a few hundred bytes with multi-byte characters at every offset around 256
+/// (binary acknowledgements reach the callback as text with replacement characters in it)
+pub fn long_ack(rng: &mut Rng) -> String {
+    let lead = 250 + rng.below(10) as usize;
+    let c = *rng.pick(&['\u{00e9}', '\u{20ac}', '\u{FFFD}', '\u{1F600}']);
+    let mut s = "e".repeat(lead);
+    for _ in 0..rng.range(1, 40) {
+        s.push(c);
+    }
+    s.push_str(&"z".repeat(rng.below(300) as usize));
+    s
 }
